@@ -113,6 +113,7 @@ func loadRingKinds() {
 type rcall struct {
 	name string
 	n    int
+	ms   []int // rfrom: the script of the reader handed to ReadFrom
 }
 
 func parseRcall(w string) (rcall, bool) {
@@ -126,18 +127,59 @@ func parseRcall(w string) (rcall, bool) {
 		if err != nil || n < 0 {
 			return rcall{}, false
 		}
-		return rcall{parts[0], n}, true
+		return rcall{name: parts[0], n: n}, true
 	case "wfill", "use", "close", "len":
 		if len(parts) != 1 {
 			return rcall{}, false
 		}
-		return rcall{parts[0], 0}, true
+		return rcall{name: parts[0]}, true
+	case "rfrom":
+		// rfrom:m1,m2,…  ReadFrom with a reader whose k-th Read returns min(mk, len(p)) bytes, after the
+		// script (0, io.EOF); "rfrom:-" = empty script
+		if len(parts) != 2 {
+			return rcall{}, false
+		}
+		c := rcall{name: "rfrom"}
+		if parts[1] == "-" {
+			return c, true
+		}
+		for _, f := range strings.Split(parts[1], ",") {
+			m, err := strconv.Atoi(f)
+			if err != nil || m < 0 {
+				return rcall{}, false
+			}
+			c.ms = append(c.ms, m)
+		}
+		return c, true
 	}
 	return rcall{}, false
 }
 
+// scriptReader is the io.Reader handed to ReadFrom: it delivers the test stream in the portions of the script.
+type scriptReader struct {
+	ep *ringEp
+	ms []int
+}
+
+func (r *scriptReader) Read(p []byte) (int, error) {
+	if len(r.ms) == 0 {
+		return 0, io.EOF
+	}
+	n := r.ms[0]
+	r.ms = r.ms[1:]
+	if n > len(p) {
+		n = len(p)
+	}
+	o := r.ep.base + r.ep.produced
+	for j := 0; j < n; j++ {
+		p[j] = ringSrc(o + int64(j))
+	}
+	r.ep.produced += int64(n)
+	return n, nil
+}
+
 func (c rcall) producer() bool {
-	return c.name == "write" || c.name == "wwait" || c.name == "wfill" || c.name == "wcommit"
+	return c.name == "write" || c.name == "wwait" || c.name == "wfill" || c.name == "wcommit" || c.name == "rfrom"
 }
 func (c rcall) consumer() bool {
 	return c.name == "read" || c.name == "peek" || c.name == "rwait" || c.name == "use" || c.name == "commit"
@@ -176,6 +218,7 @@ type rthread struct {
 	ep       *ringEp
 	name     string
 	declared bool
+	hasProg  bool // a program was declared by a `thread` line (a thread that only served `call` lines may still get one)
 	prog     []rcall
 	next     int
 	cur      *rcall
@@ -399,6 +442,10 @@ func (ep *ringEp) exec(t *rthread, call rcall) *rres {
 			ep.produced += int64(n)
 			t.filled = 0
 		}
+	case "rfrom":
+		t.slice, t.filled = nil, 0
+		n, err := b.ReadFrom(&scriptReader{ep: ep, ms: call.ms})
+		r.n, r.err = int(n), errClass(err)
 	case "read":
 		t.view, t.hasView, t.pending = nil, false, nil
 		p := make([]byte, call.n)
@@ -636,6 +683,9 @@ func (ep *ringEp) needHave(t *rthread) (int64, int64) {
 		return int64(t.cur.n), space
 	case "wcommit":
 		return int64(min64(int64(t.cur.n), int64(t.filled))), space
+	case "rfrom":
+		// ReadFrom waits for one free byte (its WriteCommit never waits)
+		return 1, space
 	}
 	return 0, 0
 }
@@ -659,7 +709,7 @@ func (ep *ringEp) report(withNeed bool) string {
 func (ep *ringEp) addCloser() {
 	t := ep.newThread("K" + strconv.Itoa(len(ep.K)))
 	t.declared = true
-	t.prog = []rcall{{"close", 0}}
+	t.prog = []rcall{{name: "close"}}
 	ep.K = append(ep.K, t)
 }
 
@@ -684,12 +734,12 @@ func (ep *ringEp) finish() string {
 	cIdle := !ep.C.declared || ep.C.finished()
 	if pIdle {
 		ep.P.declared = true
-		ep.P.prog = append(ep.P.prog[:ep.P.next:ep.P.next], rcall{"write", 1})
+		ep.P.prog = append(ep.P.prog[:ep.P.next:ep.P.next], rcall{name: "write", n: 1})
 		ep.P.lastRes = nil
 	}
 	if cIdle {
 		ep.C.declared = true
-		ep.C.prog = append(ep.C.prog[:ep.C.next:ep.C.next], rcall{"read", 1})
+		ep.C.prog = append(ep.C.prog[:ep.C.next:ep.C.next], rcall{name: "read", n: 1})
 		ep.C.lastRes = nil
 	}
 	ep.addCloser()
@@ -760,7 +810,7 @@ type pipeWriter struct {
 	got       []byte
 	failAfter int // > 0: the writer fails at its failAfter+1st call (the peer went away)
 	calls     int
-	full      func() bool // the ring has no room for another read block (ReadFrom is blocked for space)
+	full      func() bool // the ring is full (ReadFrom is blocked for space)
 	slow      bool
 }
 
@@ -800,7 +850,7 @@ func ringPipe(total int64, chunk int, failAfter int) string {
 	}
 	rf, wt := make(chan rr, 1), make(chan rr, 1)
 	w := &pipeWriter{failAfter: failAfter, slow: slow}
-	w.full = func() bool { return int64(b.Len()) > b.VerifSize()-8192 }
+	w.full = func() bool { return int64(b.Len()) >= b.VerifSize() }
 	go func() { n, err := b.ReadFrom(&pipeReader{total: total, chunk: chunk}); rf <- rr{n, err} }()
 	go func() { n, err := b.WriteTo(w); wt <- rr{n, err} }()
 	var a, c rr
@@ -861,10 +911,10 @@ func (c *ringCore) handle(ws []string) string {
 		switch {
 		case ws[1] == "P" || ws[1] == "C":
 			t := ep.thread(ws[1])
-			if t.declared {
+			if t.hasProg {
 				return "dup"
 			}
-			t.declared, t.prog = true, prog
+			t.declared, t.hasProg, t.prog = true, true, prog
 		case strings.HasPrefix(ws[1], "K"):
 			i, err := strconv.Atoi(ws[1][1:])
 			if err != nil {
@@ -987,6 +1037,39 @@ var ringWindows = map[int]bool{
 	64: true, 65: true, 66: true, 69: true, 70: true, 71: true, 102: true, 103: true, 104: true,
 	11: true, 12: true, 13: true, 14: true, 15: true, 16: true, // inside Close
 	32: true, 33: true, 73: true, 74: true,
+	110: true, 112: true, 111: true, // ReadFrom: loop head, before the load of the consumer cursor, before the read
+}
+
+// rfromCall: a ReadFrom whose reader delivers bursts of many sizes: single bytes, around one read block,
+// more than one read block, more than the ring, and now and then nothing
+func (g *ringGen) rfromCall() string {
+	r := g.r
+	k := 1 + r.Intn(5)
+	ms := make([]string, 0, k)
+	for i := 0; i < k; i++ {
+		var m int
+		switch r.Intn(8) {
+		case 0:
+			m = pick(r, []int{8193, 9000, 12000, 16384, 20000})
+		case 1:
+			m = 8192 - 2 + r.Intn(5)
+		case 2:
+			m = 1 + r.Intn(3)
+		case 3:
+			if r.Intn(3) == 0 {
+				m = 0
+			} else {
+				m = 1 + r.Intn(ringSize)
+			}
+		default:
+			m = g.size()
+		}
+		ms = append(ms, strconv.Itoa(m))
+	}
+	if r.Intn(12) == 0 {
+		return "rfrom:-"
+	}
+	return "rfrom:" + strings.Join(ms, ",")
 }
 
 func (g *ringGen) programs(adv int64) (p, c []string, closers int) {
@@ -1018,6 +1101,13 @@ func (g *ringGen) programs(adv int64) (p, c []string, closers int) {
 			}
 		}
 		ppos += int64(n)
+	}
+	if r.Intn(4) == 0 {
+		// ReadFrom (it closes the ring when it returns; calls after it see the closed ring)
+		p = append(p, g.rfromCall())
+		if r.Intn(4) == 0 {
+			p = append(p, "write:3")
+		}
 	}
 	if r.Intn(6) == 0 {
 		p = append(p, "close")
@@ -1143,10 +1233,100 @@ func (g *ringGen) episode(maxSteps int) {
 	g.emit("finish")
 }
 
+// episodeLag: ReadFrom with LESS THAN ONE READ BLOCK FREE.  The producer first fills the ring up to `free`
+// bytes (free = 1 … 8191, and the boundaries 0, 8192), then runs ReadFrom with bursts of many sizes while
+// the consumer lags behind (short bursts of consumer steps, reads of many sizes).  Before repository commit
+// 8f682d1 ReadFrom waited here for a whole read block (finding F3); now every read must take
+// min(burst, free, bytes up to the ring end) bytes and must never touch an uncommitted byte.
+func (g *ringGen) episodeLag(maxSteps int) {
+	r := g.r
+	adv, gate := g.advance()
+	g.emit("reset 14 %d %d", adv, gate)
+	var free int
+	switch r.Intn(8) {
+	case 0:
+		free = 1 + r.Intn(3)
+	case 1:
+		free = 8191 - r.Intn(3)
+	case 2:
+		free = pick(r, []int{0, 8192, 8193})
+	default:
+		free = 1 + r.Intn(8191)
+	}
+	p := []string{fmt.Sprintf("write:%d", ringSize-free), g.rfromCall()}
+	var c []string
+	for i, k := 0, 2+r.Intn(4); i < k; i++ {
+		n := g.size()
+		switch r.Intn(5) {
+		case 0, 1:
+			c = append(c, fmt.Sprintf("read:%d", n))
+		case 2:
+			c = append(c, fmt.Sprintf("peek:%d", n), "use", fmt.Sprintf("commit:%d", 1+r.Intn(n+1)))
+		case 3:
+			c = append(c, fmt.Sprintf("read:%d", 1+r.Intn(free+2)))
+		default:
+			c = append(c, fmt.Sprintf("peek:%d", 1+r.Intn(8192)), "use", "commit:16384")
+		}
+	}
+	g.emit("thread P %s", strings.Join(p, " "))
+	g.emit("thread C %s", strings.Join(c, " "))
+	names := []string{"P", "C"}
+	if r.Intn(4) == 0 {
+		g.emit("thread K0 close")
+		names = append(names, "K0")
+	}
+	ep := g.core.ep
+	cur := "P"
+	burst := 8 + r.Intn(30)
+	for s := 0; s < maxSteps; s++ {
+		var enabled []string
+		for _, n := range names {
+			if ep.status(ep.thread(n)) == "ok" {
+				enabled = append(enabled, n)
+			}
+		}
+		if len(enabled) == 0 {
+			break
+		}
+		t := ep.thread(cur)
+		atWindow := t.state == stYield && ringWindows[t.pos]
+		burst--
+		if ep.status(t) != "ok" || burst <= 0 || (atWindow && r.Intn(10) < 3) {
+			others := []string{}
+			for _, n := range enabled {
+				if n != cur {
+					others = append(others, n)
+				}
+			}
+			if len(others) > 0 {
+				cur = pick(r, others)
+			} else {
+				cur = enabled[0]
+			}
+			switch cur {
+			case "P":
+				burst = 6 + r.Intn(40) // the producer runs ahead
+			case "C":
+				burst = 1 + r.Intn(9) // the consumer lags
+			default:
+				burst = 1 + r.Intn(4)
+			}
+		}
+		if g.emit("step %s", cur) == "hang" {
+			return
+		}
+	}
+	g.emit("finish")
+}
+
 func genRing(seed int64, n int, tier string, w *bufio.Writer) {
 	g := newRingGen(seed, w)
 	for i := 0; i < n; i++ {
-		g.episode(30 + g.r.Intn(60))
+		if g.r.Intn(3) == 0 {
+			g.episodeLag(60 + g.r.Intn(140))
+		} else {
+			g.episode(30 + g.r.Intn(60))
+		}
 		if ringHangs > 40 {
 			break
 		}
@@ -1174,6 +1354,10 @@ var ringSweeps = []sweepCfg{
 	{pre: []string{"call P write:16384"}, threads: [][2]string{{"P", "wcommit:2"}, {"K0", "close"}}},      //
 	{threads: [][2]string{{"C", "read:1"}, {"K0", "close"}, {"K1", "close"}}},                             // Close twice
 	{threads: [][2]string{{"P", "write:2 close"}, {"C", "read:4 read:4"}}},                                // producer closes
+	{pre: []string{"call P write:16383"}, threads: [][2]string{{"P", "rfrom:5,3"}, {"C", "read:8"}}},      // ReadFrom, 1 byte free x space
+	{pre: []string{"call P write:16384"}, threads: [][2]string{{"P", "rfrom:3"}, {"C", "read:2"}}},        // blocked ReadFrom x space
+	{pre: []string{"call P write:16384"}, threads: [][2]string{{"P", "rfrom:3"}, {"K0", "close"}}},        // blocked ReadFrom x Close
+	{threads: [][2]string{{"P", "rfrom:2,2"}, {"C", "rwait:3 use commit:3"}}, adv: 16382},                 // ReadFrom x ReadWait, wrap
 }
 
 // runs one schedule: follows `prefix` (indices into the enabled list), then the
@@ -1370,6 +1554,40 @@ func genRingSoak(seed int64, n int, tier string, w *bufio.Writer) {
 			}
 		}
 		if r.Intn(3) == 0 {
+			// a whole ReadFrom without scheduler: every read takes min(burst, read block, free space, bytes up to
+			// the ring end); the script is cut so that ReadFrom never has to wait (one byte stays free for the
+			// waitForWriteSpace(1) that precedes the read which finds the reader at its end)
+			var ms []string
+			for i, k := 0, 1+r.Intn(6); i < k; i++ {
+				space := int64(ringSize) - (ppos - cpos)
+				if space <= 1 {
+					break
+				}
+				m := int64(g.size())
+				if r.Intn(5) == 0 {
+					m = int64(pick(r, []int{8193, 9000, 16384, 20000}))
+				}
+				if m > space-1 {
+					m = space - 1 // offer no more than what keeps one byte free
+				}
+				take := m
+				for _, lim := range []int64{8192, int64(ringSize) - (ppos & (ringSize - 1))} {
+					if take > lim {
+						take = lim // a burst longer than this read can take is cut; the rest is not offered again
+					}
+				}
+				ms = append(ms, strconv.FormatInt(m, 10))
+				ppos += take
+			}
+			if len(ms) == 0 {
+				ms = []string{"0"}
+			}
+			if int64(ringSize)-(ppos-cpos) >= 1 {
+				g.emit("call P rfrom:%s", strings.Join(ms, ","))
+				g.emit("call C read:100")
+				g.emit("call P write:1")
+			}
+		} else if r.Intn(3) == 0 {
 			g.emit("call P close")
 			g.emit("call C read:100")
 			g.emit("call P write:1")
